@@ -2,6 +2,9 @@ import PhyModel.Proofs.Gibbs
 import PhyModel.Model.Moves
 import PhyModel.Proofs.MovesDpBlock3
 import PhyModel.Proofs.MovesPrBlock4
+import PhyModel.Proofs.PGSub7
+import PhyModel.Proofs.PGSubExample
+import PhyModel.Proofs.PGExample
 /-! # C04 — data-point, prune-regraft and subtree moves preserve the same posterior
 
 `gibbs_block_invariant` is the argument behind the data-point move and the prune-regraft move: a
@@ -21,7 +24,16 @@ The executable models `Moves.dataPointMove`, `Moves.pruneRegraft`, `Moves.subtre
 transition row by transition row with the exact kernels of the real samplers.  For the random-subtree
 particle-Gibbs move the unconditional statement is FALSE of model and code (known finding F7: the
 region is selected with a state-dependent, uncorrected probability); the pinned counter-instances are
-evaluated on every run. -/
+evaluated on every run.  What IS true of the move, and proved below for the executable model
+(`subtreeMove_factors`, `subtree_conditional_invariant`): `Moves.subtreeMove` is "choose the region, then
+`Moves.subtreeGiven`", and **given the region** (remaining forest `rem`, graft point `gk`, region data
+`D` = the region's clone data and all outliers) `Moves.subtreeGiven` is a particle-Gibbs update whose
+invariant distribution is the full-tree posterior restricted to the trees `graftBack rem gk y`:
+`Σ_x pOne(full x) · P(subtreeGiven x = full y) = pOne(full y)` over the complete subtrees on `D`, for all
+three proposals, every `N ≥ 1` and every threshold.  The abstract argument is conditional SMC whose
+final selection uses the weights `w · h(x)` (`csmc_corrected_invariant`), also under the code's
+schedule for a single data point, where the swarm is resampled on the uncorrected weights BEFORE the
+correction (`csmc_corrected_invariant_final_resample`). -/
 
 namespace PhyModel.Props.C04
 open Finset BigOperators
@@ -147,6 +159,192 @@ example : exPr.length = 16 ∧ exPr.Nodup ∧ (∀ x ∈ exPr, WFT x) ∧
 /-- hypotheses of `categorical_gibbs_reversible`: the candidates of data point 0 on the movable trees -/
 example : Block (exDp.filter fun x => dpMovable x 0) (fun x => dpCands true x 0) := by decide +kernel
 
--- OBLIGATION-OPEN subtree_invariant: FALSE of model and code (known finding F7); the conditional statement (given the selected region, the re-weighted conditional SMC targets the full-tree density) is not yet formalised
+/-! ## The random-subtree move, given the region
+
+`ParticleGibbsSubtreeSampler.sample_tree` picks a data point, takes the parent of its clone as the root
+of the region, extracts that subtree with all outliers, runs `sample_swarm` (conditional SMC targeting
+the **subtree's** density), multiplies every weight by `pOne(full tree) / pOne(subtree)`
+(`_correct_weights`) and draws.  Abstractly that is conditional SMC with a corrected final selection. -/
+
+/-- **Conditional SMC with corrected final weights.**  `ASMC.kernelH sp u h T`: the `T` steps of the
+sweep of `sp` (retained path in slot 0, any number `m + 1` of particles, adaptive resampling by any
+slot-symmetric rule), then every weight `w_k` is replaced by `w_k · h(x_k)` and the result is drawn in
+proportion to those.  For `h` positive on the support of the last-level target, it leaves `g T · h`
+invariant. -/
+theorem csmc_corrected_invariant {X : Type} [Fintype X] [DecidableEq X] {m : ℕ}
+    (sp : ASMC.Spec (m := m) X) (u : ℚ) (T : ℕ) (hv : ASMC.ValidTo sp T) (hu : 0 < u) (h : X → ℚ)
+    (hh : ∀ x, 0 < sp.g T x → 0 < h x) (y : X) :
+    ∑ x, (sp.g T x * h x) * ASMC.kernelH sp u h T x y = sp.g T y * h y :=
+  ASMC.csmc_corrected_invariant hv hu hh y
+
+/-- **… under the code's schedule for a single data point.**  `ASMC.kernelRH`: after the `T` steps the
+swarm is resampled if the rule fires **on the uncorrected weights** (slot 0 kept, the other slots drawn
+from the normalised uncorrected weights, all weights reset to `u`), only then corrected by `h`, then
+drawn — `sample_swarm` (whose `sample()` resamples after `_init_swarm`), `_correct_weights`, the draw.
+It leaves `g T · h` invariant too (every `T`); `ASMC.kernelXH` = `kernelRH` if `T = 1`, else `kernelH`,
+is what `SMC.csmc` followed by the corrected draw computes. -/
+theorem csmc_corrected_invariant_final_resample {X : Type} [Fintype X] [DecidableEq X] {m : ℕ}
+    (sp : ASMC.Spec (m := m) X) (u : ℚ) (T : ℕ) (hv : ASMC.ValidTo sp T) (hu : 0 < u) (h : X → ℚ)
+    (hh : ∀ x, 0 < sp.g T x → 0 < h x) (y : X) :
+    (∑ x, (sp.g T x * h x) * ASMC.kernelRH sp u h T x y = sp.g T y * h y) ∧
+    (∑ x, (sp.g T x * h x) * ASMC.kernelXH sp u h T x y = sp.g T y * h y) :=
+  ⟨ASMC.csmc_corrected_invariant_final_resample hv hu hh y, ASMC.csmc_corrected_invariant_X hv hu hh y⟩
+
+/-- **Correcting the final weights = targeting `g T · h` at the last step**: `kernelH` is the plain
+conditional-SMC kernel of the specification whose last-level target is multiplied by `h`
+(`ASMC.withH`); the adaptive resampling decisions of the earlier steps do not see `h` in either. -/
+theorem corrected_kernel_is_modified_target {X : Type} [Fintype X] [DecidableEq X] {m : ℕ}
+    (sp : ASMC.Spec (m := m) X) (u : ℚ) (h : X → ℚ) (T : ℕ) (x y : X) :
+    ASMC.kernelH sp u h (T+1) x y = ASMC.kernel (ASMC.withH sp h (T+1)) u (T+1) x y :=
+  ASMC.kernelH_eq_kernel_withH h T x y
+
+/-- non-vacuity (all three): the branching three-state specification of C01 (a root with two children),
+with the correction `h = (1, 2, 3)` -/
+example : ASMC.ValidTo PG.exSpec 1 ∧ 0 < PG.exSpec.g 1 1 ∧ 0 < PG.exSpec.g 1 2 ∧
+    (∀ x : Fin 3, 0 < PG.exSpec.g 1 x → 0 < (fun z : Fin 3 => (z.val : ℚ) + 1) x) := by
+  refine ⟨PG.exSpec_valid, PG.exSpec_branches.1, PG.exSpec_branches.2, ?_⟩
+  intro x _
+  positivity
+
+/-- **The model of the move factors through the region choice.**  `Moves.subtreeMove` — the definition
+the correspondence check compares, transition row by transition row, with the exact kernel of the real
+`ParticleGibbsSubtreeSampler.sample_tree` — is: whole-tree particle Gibbs when every data point is an
+outlier; otherwise a uniform choice of a clone data point `i`, the region `Moves.regionOf x i` =
+(region forest, remaining forest, graft point), and `Moves.subtreeGiven` on the subtree (region and all
+outliers). -/
+theorem subtreeMove_factors (r : SMC.Run) (x : T) :
+    subtreeMove r x =
+      if x.f.all.isEmpty then SMC.pgStep r x
+      else Dist.norm (Dist.bind (Dist.uniform x.f.all) fun i =>
+        subtreeGiven r (regionOf x i).2.1 (regionOf x i).2.2 (T.mk' (regionOf x i).1 x.out)) :=
+  rfl
+
+/-- non-vacuity: on the chain `0 → 1 → 2` with outlier 3, data point 2 selects the region rooted at the
+clone of data point 1 (below the clone of data point 0), the extracted subtree is `1 → 2` with the
+outlier, and grafting it back gives the tree we started from -/
+example : regionOf PG.subFull 2 = (PG.subTree.f, PG.subRem, some 0) ∧
+    T.mk' (regionOf PG.subFull 2).1 PG.subFull.out = PG.subTree ∧
+    graftBack PG.subRem (some 0) PG.subTree = PG.subFull := by decide +kernel
+
+/-- **The executable move given the region is the corrected particle-Gibbs kernel.**  For a complete
+subtree `x` on the region's data `D` and every test function `φ` on full trees,
+`E[φ(subtreeGiven x)] = Σ_y subKernel x y · φ(graftBack rem gk y)`, where
+`PG.subKernel x y = Σ_σ uOrd x σ · ASMC.kernelXH (PG.spec σ (1/N)) (1/N) h |σ| x y` (order uniform on the
+compatible orders of the subtree; `h y = pOne(graftBack rem gk y) / pOne y`, `PG.hC`; `PG.spec` is the
+PhyClone instance of C01 for the region's data). -/
+theorem subtree_given_exec (dt : Data) (c : Proposal.Cfg) (D : List ℕ) (h : PG.HypD dt c D) (rem : DF)
+    (gk : Option ℕ) (θ : ℚ) (m : ℕ) (x : PG.St (PGSpec.allStates c D)) (hx : x.1 ∈ PGSpec.finals c D)
+    (φ : T → ℚ) :
+    Dist.E (subtreeGiven (PG.runOf dt c m θ) rem gk x.1) φ
+      = ∑ y : PG.St (PGSpec.allStates c D),
+          PG.subKernel dt c D rem gk (PG.uN m) θ m (PG.uN m) x y * φ (graftBack rem gk y.1) :=
+  PG.subtreeGiven_E h rem gk θ m x hx φ
+
+/-- **Given the region, the corrected kernel leaves the full-tree density invariant** (abstract mixture
+kernel, any `κ, u > 0`): `PG.piR x = pOne (graftBack rem gk x)` on the complete subtrees of `D`
+(`PGSpec.finals c D`), 0 on the partial trees of the common state space. -/
+theorem subtree_conditional_invariant_abstract (dt : Data) (c : Proposal.Cfg) (D : List ℕ)
+    (h : PG.HypD dt c D) (rem : DF) (gk : Option ℕ)
+    (hpos : ∀ y ∈ PGSpec.finals c D, 0 < Proposal.pOneT dt c (graftBack rem gk y))
+    (κ : ℚ) (hκ : 0 < κ) (θ : ℚ) (m : ℕ) (u : ℚ) (hu : 0 < u) (y : PG.St (PGSpec.allStates c D)) :
+    ∑ x : PG.St (PGSpec.allStates c D), PG.piR dt c D rem gk x.1 * PG.subKernel dt c D rem gk κ θ m u x y
+      = PG.piR dt c D rem gk y.1 :=
+  PG.subtree_invariant_abstract h rem gk hpos κ hκ θ m u hu y
+
+/-- **The conditional statement, expectation form** (no assumption on the remaining forest beyond a
+positive full-tree density): for every data set of the region with distinct indices, positive
+likelihoods, `α > 0`, outlier proposal probability in `[0,1)`, each of the three proposals
+(`PG.HypD dt c D`), every remaining forest `rem` and graft point `gk`, every `N = m + 1 ≥ 1` and
+threshold, and every test function `φ` on full trees:
+`Σ_x pOne(full x) · E[φ(subtreeGiven x)] = Σ_y pOne(full y) · φ(full y)`,
+i.e. if the subtree is distributed as the full-tree posterior restricted to the region, so is the
+subtree after the move. -/
+theorem subtree_conditional_invariant_E (dt : Data) (c : Proposal.Cfg) (D : List ℕ) (h : PG.HypD dt c D)
+    (rem : DF) (gk : Option ℕ)
+    (hpos : ∀ y ∈ PGSpec.finals c D, 0 < Proposal.pOneT dt c (graftBack rem gk y))
+    (θ : ℚ) (m : ℕ) (φ : T → ℚ) :
+    ∑ x : PG.St (PGSpec.allStates c D),
+        PG.piR dt c D rem gk x.1 * Dist.E (subtreeGiven (PG.runOf dt c m θ) rem gk x.1) φ
+      = ∑ y : PG.St (PGSpec.allStates c D), PG.piR dt c D rem gk y.1 * φ (graftBack rem gk y.1) :=
+  PG.subtree_given_invariant_E h rem gk hpos θ m φ
+
+/-- **Distinct subtrees give distinct full trees**: when the remaining forest holds no data of the
+region, its data are pairwise distinct and the graft point (if any) is one of them (`PG.RegionOK`), the
+forest induced by the full tree on the region's data is the subtree again. -/
+theorem graftBack_restrict (c : Proposal.Cfg) (D : List ℕ) (rem : DF) (gk : Option ℕ)
+    (ok : PG.RegionOK rem gk D) (x : T) (w : PG.WFT c x) (hperm : (x.f.all ++ x.out).Perm D) :
+    SMC.restrict (graftBack rem gk x) D = x :=
+  PG.restrict_graftBack ok w hperm
+
+/-- **C04, random-subtree move, conditional statement.**  Given the region — remaining forest `rem` and
+graft point `gk` with `PG.RegionOK rem gk D` (no data of the region in `rem`, distinct data, graft point
+in `rem`), all data of `rem` and of the region `D` with positive likelihoods and outlier priors in
+`[0,1)`, `α > 0`, outlier proposal probability in `[0,1)`, each of the three proposals, kernel with a
+permutation distribution, every `N = m + 1 ≥ 1` and every threshold — the executable
+`Moves.subtreeGiven` satisfies, for every complete subtree `y` on `D`,
+`Σ_x pOne(full x) · P(subtreeGiven x = full y) = pOne(full y)`, the sum over the complete subtrees `x`
+on `D`, `full = graftBack rem gk`. -/
+theorem subtree_conditional_invariant (dt : Data) (c : Proposal.Cfg) (D : List ℕ) (h : PG.HypD dt c D)
+    (rem : DF) (gk : Option ℕ) (ok : PG.RegionOK rem gk D) (hrem : ∀ i ∈ rem.all, C19P.GoodIdx dt i)
+    (θ : ℚ) (m : ℕ) (y : PG.St (PGSpec.allStates c D)) (hy : y.1 ∈ PGSpec.finals c D) :
+    ∑ x : PG.St (PGSpec.allStates c D), PG.piR dt c D rem gk x.1 *
+        Dist.E (subtreeGiven (PG.runOf dt c m θ) rem gk x.1)
+          (fun z => if z = graftBack rem gk y.1 then 1 else 0)
+      = PG.piR dt c D rem gk y.1 :=
+  PG.subtree_given_invariant h rem gk (PG.graftBack_pOne_pos h rem gk hrem) (PG.graftBack_inj h ok) θ m y hy
+
+/-- non-vacuity (all of the above): four data points on a 2-point grid, outlier priors 1/5, every
+proposal kind, outlier proposal probability 1/10; region data `[1, 2, 3]` (clones of 1 and 2, outlier
+3) below the clone of data point 0 — the hypotheses hold, the extracted subtree is one of the complete
+subtrees, there are 42 distinct complete subtrees (the sum is a genuine one), and the move is not
+degenerate (by `#eval`, bootstrap proposal, two particles, threshold 1/2: `subtreeGiven` reaches 34
+different full trees from `PG.subTree`) -/
+example : (∀ k, PG.HypD PG.subData (PG.subCfg k) [1, 2, 3]) ∧ PG.RegionOK PG.subRem (some 0) [1, 2, 3] ∧
+    (∀ i ∈ PG.subRem.all, C19P.GoodIdx PG.subData i) ∧
+    PG.subTree ∈ PGSpec.finals (PG.subCfg .semi) [1, 2, 3] ∧
+    (PGSpec.finals (PG.subCfg .semi) [1, 2, 3]).eraseDups.length = 42 := by
+  refine ⟨PG.subHypD, PG.subRegionOK, PG.subRemGood, ?_, ?_⟩ <;> decide +kernel
+
+/-- **Every region the move can choose is an instance of the conditional statement.**  For a well-formed
+tree `x` (`PG.WFT`: canonical, no empty clone, distinct data below the sentinel, no outliers when outlier
+modelling is off) with positive likelihoods and any clone data point `i`: with
+`(region, rem, gk) = Moves.regionOf x i`, `xs = T.mk' region x.out` the subtree `subtreeMove` hands to
+`subtreeGiven` and `D = region.all ++ x.out` its data — `D` satisfies `PG.HypD`, `PG.RegionOK rem gk D`
+holds, the data of `rem` are good, `xs = ⟨region, x.out⟩` is one of the complete subtrees on `D`, and
+`graftBack rem gk xs = x`: the current tree is the full tree of the subtree that is extracted. -/
+theorem subtree_region_ok (dt : Data) (c : Proposal.Cfg) (x : T) (w : PG.WFT c x) (hG : 0 < dt.G)
+    (hα : 0 < c.α) (op0 : 0 ≤ c.op) (op1 : c.op < 1) (hup : c.usePerm = true)
+    (hgood : ∀ j ∈ x.f.all ++ x.out, C19P.GoodIdx dt j) (i : ℕ) (hi : i ∈ x.f.all) :
+    PG.HypD dt c ((regionOf x i).1.all ++ x.out) ∧
+    PG.RegionOK (regionOf x i).2.1 (regionOf x i).2.2 ((regionOf x i).1.all ++ x.out) ∧
+    (∀ j ∈ (regionOf x i).2.1.all, C19P.GoodIdx dt j) ∧
+    T.mk' (regionOf x i).1 x.out = ⟨(regionOf x i).1, x.out⟩ ∧
+    T.mk' (regionOf x i).1 x.out ∈ PGSpec.finals c ((regionOf x i).1.all ++ x.out) ∧
+    graftBack (regionOf x i).2.1 (regionOf x i).2.2 (T.mk' (regionOf x i).1 x.out) = x :=
+  PG.regionOf_ok w hG hα op0 op1 hup hgood hi
+
+/-- **The conditional statement at every region of every well-formed tree**: for the region selected
+through any clone data point `i` of any well-formed tree `x₀`, `Moves.subtreeGiven` leaves
+`y ↦ pOne (graftBack rem gk y)` invariant on the complete subtrees of the region's data. -/
+theorem subtree_conditional_invariant_at_region (dt : Data) (c : Proposal.Cfg) (x₀ : T) (w : PG.WFT c x₀)
+    (hG : 0 < dt.G) (hα : 0 < c.α) (op0 : 0 ≤ c.op) (op1 : c.op < 1) (hup : c.usePerm = true)
+    (hgood : ∀ j ∈ x₀.f.all ++ x₀.out, C19P.GoodIdx dt j) (i : ℕ) (hi : i ∈ x₀.f.all) (θ : ℚ) (m : ℕ)
+    (y : PG.St (PGSpec.allStates c ((regionOf x₀ i).1.all ++ x₀.out)))
+    (hy : y.1 ∈ PGSpec.finals c ((regionOf x₀ i).1.all ++ x₀.out)) :
+    ∑ x : PG.St (PGSpec.allStates c ((regionOf x₀ i).1.all ++ x₀.out)),
+        PG.piR dt c ((regionOf x₀ i).1.all ++ x₀.out) (regionOf x₀ i).2.1 (regionOf x₀ i).2.2 x.1 *
+        Dist.E (subtreeGiven (PG.runOf dt c m θ) (regionOf x₀ i).2.1 (regionOf x₀ i).2.2 x.1)
+          (fun z => if z = graftBack (regionOf x₀ i).2.1 (regionOf x₀ i).2.2 y.1 then 1 else 0)
+      = PG.piR dt c ((regionOf x₀ i).1.all ++ x₀.out) (regionOf x₀ i).2.1 (regionOf x₀ i).2.2 y.1 := by
+  obtain ⟨h1, h2, h3, _, _, _⟩ := PG.regionOf_ok (dt := dt) w hG hα op0 op1 hup hgood hi
+  exact subtree_conditional_invariant dt c _ h1 _ _ h2 h3 θ m y hy
+
+/-- non-vacuity (both): the chain `0 → 1 → 2` with outlier 3 is well formed with good data for every
+proposal kind, and data point 2 is a clone data point (its region is the one of the examples above) -/
+example : (∀ k, PG.WFT (PG.subCfg k) PG.subFull) ∧ (∀ j ∈ PG.subFull.f.all ++ PG.subFull.out, C19P.GoodIdx PG.subData j) ∧
+    2 ∈ PG.subFull.f.all ∧ (regionOf PG.subFull 2).1.all ++ PG.subFull.out = [2, 1, 3] := by
+  refine ⟨PG.subFull_wft, PG.subFull_good, ?_, ?_⟩ <;> decide +kernel
+
+-- OBLIGATION-OPEN subtree_invariant: only the UNCONDITIONAL statement `Σ_x pOne x · P(subtreeMove x = y) = pOne y` remains, and it is FALSE of model and code (known finding F7: the region is chosen with a state-dependent probability that is never corrected); the conditional statement given the region is proved (`subtree_conditional_invariant`)
 
 end PhyModel.Props.C04
